@@ -106,7 +106,7 @@ macro_rules! impl_mode_ops {
     ($ty:ident :: $name:ident, $dir:tt, $async:tt $(, where $($extra:tt)*)?) => {
         impl<C> ModeOps for $ty::$name<C>
         where
-            C: BlockCipherEncrypt + BlockCipherDecrypt + KeyInit + Clone + AlgorithmName + 'static,
+            C: BlockCipherEncrypt + BlockCipherDecrypt + KeyInit + Clone + AlgorithmName + Debug + 'static,
             $($($extra)*)?
         {
             const MBS: usize = <<Self as BlockSizeUser>::BlockSize as Unsigned>::USIZE;
@@ -203,7 +203,7 @@ macro_rules! impl_ofb_block {
     ($name:ident, $dir:tt) => {
         impl<C> ModeOps for $name<C>
         where
-            C: BlockCipherEncrypt + BlockCipherDecrypt + KeyInit + Clone + AlgorithmName + 'static,
+            C: BlockCipherEncrypt + BlockCipherDecrypt + KeyInit + Clone + AlgorithmName + Debug + 'static,
         {
             const MBS: usize = <C::BlockSize as Unsigned>::USIZE;
             fn new_key_iv(key: &[u8], iv: &[u8]) -> Self {
@@ -373,7 +373,7 @@ pub struct BufObj<C: BlockCipherEncrypt, const ENC: bool> {
 
 impl<C, const ENC: bool> BufObj<C, ENC>
 where
-    C: BlockCipherEncrypt + KeyInit + Clone + AlgorithmName + 'static,
+    C: BlockCipherEncrypt + KeyInit + Clone + AlgorithmName + Debug + 'static,
 {
     pub fn new(key: &[u8], iv: &[u8]) -> Box<dyn Obj> {
         let (e, d) = if ENC {
@@ -387,7 +387,7 @@ where
 
 impl<C, const ENC: bool> Obj for BufObj<C, ENC>
 where
-    C: BlockCipherEncrypt + KeyInit + Clone + AlgorithmName + 'static,
+    C: BlockCipherEncrypt + KeyInit + Clone + AlgorithmName + Debug + 'static,
 {
     fn boxed_clone(&self) -> Option<Box<dyn Obj>> {
         Some(Box::new(Self { e: self.e.clone(), d: self.d.clone(), key: self.key.clone() }))
@@ -494,15 +494,15 @@ macro_rules! impl_seekable_core {
 impl_seekable_core!([fn maybe_clone(&self) -> Option<Self> { Some(self.clone()) }
     fn maybe_clone_wrapper(w: &StreamCipherCoreWrapper<Self>) -> Option<StreamCipherCoreWrapper<Self>> { Some(w.clone()) }]
     <C, F> CoreKind for ctr::CtrCore<C, F>
-    where C: BlockCipherEncrypt + KeyInit + Clone + AlgorithmName + 'static, F: ctr::CtrFlavor<C::BlockSize> + 'static);
+    where C: BlockCipherEncrypt + KeyInit + Clone + AlgorithmName + Debug + 'static, F: ctr::CtrFlavor<C::BlockSize> + 'static);
 impl_seekable_core!([fn maybe_clone(&self) -> Option<Self> { None }
     fn maybe_clone_wrapper(_w: &StreamCipherCoreWrapper<Self>) -> Option<StreamCipherCoreWrapper<Self>> { None }]
     <C> CoreKind for belt_ctr::BeltCtrCore<C>
-    where C: BlockCipherEncrypt + BlockCipherDecrypt + BlockSizeUser<BlockSize = cipher::consts::U16> + KeyInit + Clone + AlgorithmName + 'static);
+    where C: BlockCipherEncrypt + BlockCipherDecrypt + BlockSizeUser<BlockSize = cipher::consts::U16> + KeyInit + Clone + AlgorithmName + Debug + 'static);
 
 impl<C> CoreKind for ofb::OfbCore<C>
 where
-    C: BlockCipherEncrypt + KeyInit + Clone + AlgorithmName + 'static,
+    C: BlockCipherEncrypt + KeyInit + Clone + AlgorithmName + Debug + 'static,
 {
     const SEEKABLE: bool = false;
     fn maybe_clone(&self) -> Option<Self> {
